@@ -12,7 +12,6 @@ Open Scope N_scope.
 Lemma T_line_max : gen.T12.LINE_MAX = 512. Proof. reflexivity. Qed.
 Lemma T_fixed : gen.T12.FIXED_OVERHEAD = 14. Proof. reflexivity. Qed.
 Lemma T_nicksep : blen gen.T12.NICK_SEP = 2 /\ slen gen.T12.NICK_SEP = 2. Proof. split; reflexivity. Qed.
-Lemma T_reserve : gen.T12.MORE_RESERVE = 21. Proof. reflexivity. Qed.
 Lemma T_more : blen gen.T12.MORE_ONE = 12 /\ blen gen.T12.MORE_MANY = 13. Proof. split; reflexivity. Qed.
 
 (* ---------- ASCII strings: characters = bytes ---------- *)
@@ -91,15 +90,15 @@ Qed.
 (* the old refuting environments -- F41 (#é), F42 (query from alice to b), F43 (private=True given in #c
    by alice with withNickPrefix off; to=bobbybobby given in #c by a) -- with a payload that fills the room *)
 Definition k_nonascii : cfg :=
-  Cfg [98; 33; 117; 64; 104] [35; 233] [97] true false true true 0 50 1 false false None false false false.
+  Cfg [98; 33; 117; 64; 104] [35; 233] [97] true false true true 0 50 1 false false None false false false gen.T12.MORE_ONE gen.T12.MORE_MANY.
 Definition k_private : cfg :=
-  Cfg [98; 33; 117; 64; 104] [98] [97; 108; 105; 99; 101] false false false true 0 50 1 false false None false false false.
+  Cfg [98; 33; 117; 64; 104] [98] [97; 108; 105; 99; 101] false false false true 0 50 1 false false None false false false gen.T12.MORE_ONE gen.T12.MORE_MANY.
 Definition k_private_chan : cfg :=
   Cfg [98; 33; 117; 64; 104] [35; 99] [97; 108; 105; 99; 101] true false true true 0 50 1
-      true false None false false false.
+      true false None false false false gen.T12.MORE_ONE gen.T12.MORE_MANY.
 Definition k_to_nick : cfg :=
   Cfg [98; 33; 117; 64; 104] [35; 99] [97] true true true true 0 50 1
-      false false (Some [98; 111; 98; 98; 121; 98; 111; 98; 98; 121]) false false false.
+      false false (Some [98; 111; 98; 98; 121; 98; 111; 98; 98; 121]) false false false gen.T12.MORE_ONE gen.T12.MORE_MANY.
 Definition room_payload (k : cfg) : str := repeat 121 (Z.to_nat (line_room k)).
 
 Example line_fits_nonvacuous :
@@ -109,24 +108,45 @@ Example line_fits_nonvacuous :
 Proof. vm_compute. reflexivity. Qed.
 
 (* ---------- clause 2: the "(XX more messages)" reserve ---------- *)
-(* Full statement: forall n >= 1, blen (suffix n n) <= MORE_RESERVE.  Since the F12 repair
-   (reserve = len + 3) it holds for every count the text "(XX ...)" provides for, 1..99;
-   a three-digit count is still one byte over. *)
-Definition suffix_ok (n : N) : bool := blen (suffix n n) <=? gen.T12.MORE_RESERVE.
-
-Lemma suffix_table : forallb suffix_ok (map N.of_nat (seq 1 99)) = true.
+(* Full statement: forall k n >= 1, blen (suffix k n n) <= more_reserve k.  Since the repairs of F12 and
+   F45 the reserve is the byte length of the longer of '(XX <more message>)' / '(XX <more messages>)' in
+   the bot's language plus the space and the two bold characters: it covers the suffix for every pair of
+   translations and every count the two-character 'XX' provides for, 1..99; a three-digit count is still
+   one byte over. *)
+Lemma dec_table : forallb (fun n => blen (dec n) <=? 2) (map N.of_nat (seq 1 99)) = true.
 Proof. vm_compute. reflexivity. Qed.
 
-Theorem suffix_reserve_on_domain : forall n, 1 <= n <= 99 -> blen (suffix n n) <= gen.T12.MORE_RESERVE.
+Lemma dec_two n : 1 <= n <= 99 -> blen (dec n) <= 2.
 Proof.
-  intros n Hn. pose proof suffix_table as H. rewrite forallb_forall in H.
+  intro Hn. pose proof dec_table as H. rewrite forallb_forall in H.
   assert (Hin : In n (map N.of_nat (seq 1 99))).
   { apply in_map_iff. exists (N.to_nat n). split; [lia|]. apply in_seq. lia. }
-  specialize (H n Hin). unfold suffix_ok in H. apply N.leb_le in H. exact H.
+  specialize (H n Hin). apply N.leb_le in H. exact H.
 Qed.
 
-Theorem suffix_reserve_refuted : exists n, 99 < n /\ gen.T12.MORE_RESERVE < blen (suffix n n).
-Proof. exists 100. split; [lia|]. vm_compute. reflexivity. Qed.
+Theorem suffix_reserve_on_domain : forall k n, 1 <= n <= 99 -> blen (suffix k n n) <= more_reserve k.
+Proof.
+  intros k n Hn. pose proof (dec_two n Hn) as Hd. unfold suffix, more_reserve.
+  destruct (n =? 1); repeat (rewrite ?blen_app; cbn [blen]);
+    change (clen 32) with 1; change (clen 2) with 1; change (clen 40) with 1; change (clen 41) with 1;
+    change (clen 88) with 1; lia.
+Qed.
+
+Definition k_english : cfg :=
+  Cfg [98; 33; 117; 64; 104] [35; 99] [97] true true true true 0 50 1 false false None false false false
+      gen.T12.MORE_ONE gen.T12.MORE_MANY.
+
+Theorem suffix_reserve_refuted : exists k n, 99 < n /\ more_reserve k < blen (suffix k n n).
+Proof. exists k_english, 100. split; [lia|]. vm_compute. reflexivity. Qed.
+
+(* the two shipped translations that used to overflow: French (a 2-byte letter), Finnish (the template
+   '(XX viestiä jatkoa)' is shorter than the plural really used) *)
+Example suffix_reserve_locales :
+  let fr := Cfg [] [] [] true true true true 0 50 1 false false None false false false
+              [109; 101; 115; 115; 97; 103; 101; 32; 115; 117; 112; 112; 108; 233; 109; 101; 110; 116; 97; 105; 114; 101]
+              [109; 101; 115; 115; 97; 103; 101; 115; 32; 115; 117; 112; 112; 108; 233; 109; 101; 110; 116; 97; 105; 114; 101; 115] in
+  blen (suffix fr 13 13) = 33 /\ more_reserve fr = 33.
+Proof. cbv zeta. split; reflexivity. Qed.
 
 (* ---------- clause 3: FormatContext.size covers what start() and end() add (full since F13) ---------- *)
 Definition small (o : option N) : Prop := match o with Some n => n < 100 | None => True end.
@@ -168,7 +188,7 @@ Qed.
 Example context_size_colour0 :
   let c := FC (Some 0) None false false false in
   fsize c = 5 /\ blen (fend c (fstart c [97])) = 4.
-Proof. split; reflexivity. Qed.
+Proof. cbv zeta. split; reflexivity. Qed.
 
 (* ---------- clause 4: every chunk of ircutils.wrap fits its length ---------- *)
 (* Full statement: forall s n ls, wrap s n = Ok ls -> Forall (fun c => blen c <= n) ls.
